@@ -19,6 +19,10 @@ type Check struct {
 	Run         func(c *mc.Ctx)
 	// Replay re-executes one recorded case of sub-check `sub`; it must call c.Violate again if the case still fails.
 	Replay func(c *mc.Ctx, sub string, raw json.RawMessage)
+	// UnownedNondet (optional) tells whether a recorded case involves nondeterminism the harness cannot own
+	// (Go map iteration order inside the code under test).  Such a case counts as reproduced if it fails
+	// again, with the same signature, in at least one of 8 re-executions; every other case must fail in 3 of 3.
+	UnownedNondet func(sub string, raw json.RawMessage) bool
 	// Post (optional) runs in the parent after all shards finished, e.g. the free-running -race complement.
 	Post func(tier string) (extra map[string]interface{}, violations []mc.Violation)
 }
